@@ -566,6 +566,18 @@ class C10(PropCheck):
         return dict(phases=phases, default_kernel=bool(gp._kernel_is_default), n_evidence=int(gp.n_evidence))
 
     def run_impl(self, case):
+        import traceback
+        try:
+            return self._run_impl_inner(case)
+        except ZeroDivisionError as e:
+            tb = traceback.format_exc()
+            if '_cache_RBF_kernel' in tb and 'lengthscale' in tb:
+                # the accelerated path divided by lengthscale**2 == 0.0 (lengthscale below 1e-154 reached by the optimiser)
+                self.bump('tiny_lengthscale_cases')
+                return dict(tiny_lengthscale='<1e-154 (square underflows)', lib_ok=True, fast_raised='ZeroDivisionError: %s' % e)
+            raise
+
+    def _run_impl_inner(self, case):
         rec = case['recipe']
         if case['kind'] == 'ev':
             gp, snaps = self._gp(rec, want_snaps=True)
